@@ -38,6 +38,9 @@ def classTable : List (String × Rule × NsKind) :=
     ("Vgate", .gate, .fixed 1), ("Kgate", .gate, .fixed 1),
     ("BSgate", .gate, .fixed 2), ("S2gate", .gate, .fixed 2), ("CXgate", .gate, .fixed 2),
     ("CZgate", .gate, .fixed 2), ("CKgate", .gate, .fixed 2),
+    -- inherits `Gate.merge` although its first parameter is not additive (known finding; listed in
+    -- `knownUnlawful`; never merged by `optimize_circuit` because `ns = 2`)
+    ("MZgate", .gate, .fixed 2),
     ("Fouriergate", .fourier, .fixed 1),
     -- channels multiplicative in `p[0]`
     ("LossChannel", .channel, .fixed 1), ("ThermalLossChannel", .channel, .fixed 1),
@@ -53,9 +56,12 @@ def classTable : List (String × Rule × NsKind) :=
     ("MeasureFock", .never, .absent), ("MeasureThreshold", .never, .absent),
     ("MeasureHomodyne", .never, .fixed 1), ("MeasureHeterodyne", .never, .fixed 1),
     ("MSgate", .never, .fixed 1), ("Ggate", .never, .perInstance),
-    ("MZgate", .never, .fixed 2), ("sMZgate", .never, .fixed 2),
+    ("sMZgate", .never, .fixed 2),
     ("GraphEmbed", .never, .perInstance), ("BipartiteGraphEmbed", .never, .perInstance),
     ("_Delete", .never, .absent), ("_New_modes", .never, .fixed 0) ]
+
+/-- classes that use an inherited merge rule their semantics does not obey (known findings) -/
+def knownUnlawful : List String := ["MZgate"]
 
 def classInfo (cls : String) : Option (Rule × NsKind) :=
   (classTable.find? fun e => e.1 == cls).map (·.2)
